@@ -39,6 +39,10 @@ def scenarios(tier):
                 S('silent', [('wait_eof',)])
                 # half a request, then silence
                 S('half-request', [('send', b'GET http://h.te'), ('wait_eof',)])
+                # a complete request head announcing a body, part of the body, then silence
+                S('half-body', [('send', b'POST http://h.test/u HTTP/1.1\r\nHost: h.test\r\nContent-Length: 10\r\n\r\nabc'), ('wait_eof',)])
+                S('half-chunked-body', [('send', b'POST http://h.test/u HTTP/1.1\r\nHost: h.test\r\nTransfer-Encoding: chunked\r\n\r\n5\r\nab'),
+                                        ('wait_eof',)])
                 # request/response, then silence
                 S('after-exchange', [('send', GET % 1), ('wait_recv', len(OK)), ('wait_eof',)])
                 # activity resumes just before the threshold: must survive until the NEW deadline
@@ -148,7 +152,7 @@ def check(w):
 
 def run(tier):
     return netcheck.run(PROP, tier, scenarios(tier), check, 0, None, det_every=5,
-                        rule='timeouts x reaper phase offsets x timed traces (silence, half request, after an exchange, activity '
+                        rule='timeouts x reaper phase offsets x timed traces (silence, half request, half a request body, after an exchange, activity '
                              'resuming 1 tick / 2 ticks / half a timeout before the deadline, three keep-alives in a row, tunnel '
                              'with and without client activity, upstream pushing data on its own clock, upstream draining an upload slowly while the client is silent, output pending across the deadline) x {threadless, threaded}, '
                              'under a virtual clock advanced by select() timeouts; plus an idle connection beside a continuously busy tunnel, '
